@@ -68,11 +68,12 @@ Record st := mkSt {
   msgs : list msg;        (* ghost: messages placed in the write buffer, newest first *)
   ebuf : list N;          (* m_encrypt_buffer: position()..end(), encrypted and not yet sent *)
   eb_end : N;             (* m_encrypt_buffer->size_end() *)
-  kpos : N                (* bytes the connection's RC4 encryptor has produced so far *)
+  kpos : N;               (* bytes the connection's RC4 encryptor has produced so far *)
+  upc : option N          (* m_up_chunk: index of the chunk this connection holds mapped (one ChunkList reference) *)
 }.
 
 Definition init : st :=
-  mkSt true false [] Idle [] false (mkPiece 4294967295 0 0) false [] [] [] 0 0.
+  mkSt true false [] Idle [] false (mkPiece 4294967295 0 0) false [] [] [] 0 0 None.
 
 Inductive op :=
 | RecvRequest (p : piece)
@@ -129,20 +130,20 @@ Section Conn.
        || (Params.c05_request_len_limit <? p_len p) then s
     else if existsb (piece_eqb p) (queue s) then s
     else mkSt (choked s) (send_choked s) (queue s ++ [p]) (ws s) (obuf s) (last_piece s) (cur s)
-              (closed s) (out s) (msgs s) (ebuf s) (eb_end s) (kpos s).
+              (closed s) (out s) (msgs s) (ebuf s) (eb_end s) (kpos s) (upc s).
 
   (* read_cancel_piece *)
   Definition recv_cancel (s : st) (p : piece) : st :=
     if closed s then s else
     mkSt (choked s) (send_choked s) (remove_first p (queue s)) (ws s) (obuf s) (last_piece s) (cur s)
-         (closed s) (out s) (msgs s) (ebuf s) (eb_end s) (kpos s).
+         (closed s) (out s) (msgs s) (ebuf s) (eb_end s) (kpos s) (upc s).
 
   (* receive_upload_choke; the choke_queue never calls it with the state it already has *)
   Definition decide (s : st) (c : bool) : st :=
     if closed s then s else
     if Bool.eqb c (choked s) then s
     else mkSt c true (queue s) (ws s) (obuf s) (last_piece s) (cur s) (closed s) (out s) (msgs s)
-              (ebuf s) (eb_end s) (kpos s).
+              (ebuf s) (eb_end s) (kpos s) (upc s).
 
   (* fill_write_buffer, writer IDLE and buffer empty. What is appended to the buffer is passed
      through m_encryption.encrypt(old_end, ...) at the end of fill_write_buffer. *)
@@ -152,6 +153,7 @@ Section Conn.
       if send_choked s then
         mkSt (choked s) false (if choked s then [] else queue s) (ws s) (enc_choke (choked s)) false
              (cur s) (closed s) (out s) (MChoke (choked s) :: msgs s) (ebuf s) (eb_end s) (kpos s)
+             (if choked s then None else upc s)
       else s in
     (* piece branch: !choked && !queue.empty() && can_write_piece() -> write_prepare_piece *)
     let s2 :=
@@ -161,24 +163,30 @@ Section Conn.
       | p :: q' =>
           if is_valid_piece L p && l_completed L (p_index p) then
             mkSt (choked s1) (send_choked s1) q' (ws s1) (obuf s1 ++ enc_piece_hdr p) true p
-                 (closed s1) (out s1) (MPiece p :: msgs s1) (ebuf s1) (eb_end s1) (kpos s1)
+                 (closed s1) (out s1) (MPiece p :: msgs s1) (ebuf s1) (eb_end s1) (kpos s1) (upc s1)
           else
             (* communication_error: the connection is erased, nothing buffered is sent *)
             mkSt (choked s1) (send_choked s1) q' Idle [] (last_piece s) p true (out s) (msgs s)
-                 (ebuf s) (eb_end s) (kpos s)
+                 (ebuf s) (eb_end s) (kpos s) None
       end in
     (* encrypt what this call appended (the buffer was empty) *)
     mkSt (choked s2) (send_choked s2) (queue s2) (ws s2) (crypt (kpos s2) (obuf s2)) (last_piece s2) (cur s2)
-         (closed s2) (out s2) (msgs s2) (ebuf s2) (eb_end s2) (kpos s2 + len (obuf s2)).
+         (closed s2) (out s2) (msgs s2) (ebuf s2) (eb_end s2) (kpos s2 + len (obuf s2)) (upc s2).
 
   Definition set_ws (s : st) (w : wstate) : st :=
     mkSt (choked s) (send_choked s) (queue s) w (obuf s) (last_piece s) (cur s) (closed s) (out s) (msgs s)
-         (ebuf s) (eb_end s) (kpos s).
+         (ebuf s) (eb_end s) (kpos s) (upc s).
+
+  (* load_up_chunk: keep the mapped chunk if it is the right one, else release it and map the
+     chunk of m_up_piece (ChunkList::get takes one reference) *)
+  Definition load_chunk (s : st) : st :=
+    mkSt (choked s) (send_choked s) (queue s) (ws s) (obuf s) (last_piece s) (cur s) (closed s) (out s) (msgs s)
+         (ebuf s) (eb_end s) (kpos s) (Some (p_index (cur s))).
 
   (* the socket accepts the first n bytes of the write buffer *)
   Definition write_buf (s : st) (n : N) : st :=
     mkSt (choked s) (send_choked s) (queue s) (ws s) (skipn (N.to_nat n) (obuf s)) (last_piece s) (cur s)
-         (closed s) (firstn (N.to_nat n) (obuf s) :: out s) (msgs s) (ebuf s) (eb_end s) (kpos s).
+         (closed s) (firstn (N.to_nat n) (obuf s) :: out s) (msgs s) (ebuf s) (eb_end s) (kpos s) (upc s).
 
   (* up_chunk, plain stream: n payload bytes written; m_up_piece offset/length adjusted
      (kpos moves too: ghost on plain connections, where crypt is the identity) *)
@@ -186,7 +194,7 @@ Section Conn.
     let c := cur s in
     mkSt (choked s) (send_choked s) (queue s) (ws s) (obuf s) (last_piece s)
          (mkPiece (p_index c) (p_off c + n) (p_len c - n))
-         (closed s) (slice (p_index c) (p_off c) n :: out s) (msgs s) (ebuf s) (eb_end s) (kpos s + n).
+         (closed s) (slice (p_index c) (p_off c) n :: out s) (msgs s) (ebuf s) (eb_end s) (kpos s + n) (upc s).
 
   (* up_chunk_encrypt(quota = m_up_piece.length()): Chunk::to_buffer of the next not yet encrypted
      bytes of the block into the EncryptBuffer (16384 bytes), RC4 over exactly those bytes *)
@@ -200,7 +208,7 @@ Section Conn.
       let n := if r =? 0 then N.min (p_len c) eb_size            (* min(quota, reserved()) *)
                else N.min (p_len c - r) (eb_size - e0) in        (* min(quota - remaining, reserved_left) *)
       mkSt (choked s) (send_choked s) (queue s) (ws s) (obuf s) (last_piece s) c (closed s) (out s) (msgs s)
-           (ebuf s ++ crypt (kpos s) (slice (p_index c) (p_off c + r) n)) (e0 + n) (kpos s + n).
+           (ebuf s ++ crypt (kpos s) (slice (p_index c) (p_off c + r) n)) (e0 + n) (kpos s + n) (upc s).
 
   (* the socket accepts the first n bytes of the encrypt buffer *)
   Definition write_ebuf (s : st) (n : N) : st :=
@@ -208,7 +216,7 @@ Section Conn.
     mkSt (choked s) (send_choked s) (queue s) (ws s) (obuf s) (last_piece s)
          (mkPiece (p_index c) (p_off c + n) (p_len c - n))
          (closed s) (firstn (N.to_nat n) (ebuf s) :: out s) (msgs s)
-         (skipn (N.to_nat n) (ebuf s)) (eb_end s) (kpos s).
+         (skipn (N.to_nat n) (ebuf s)) (eb_end s) (kpos s) (upc s).
 
   (* one up_chunk call with socket budget k: (state, bytes written) *)
   Definition up_chunk (s : st) (k : N) : st * N :=
@@ -240,7 +248,7 @@ Section Conn.
             let s1 := write_buf s n in
             match obuf s1 with
             | _ :: _ => s1                (* partial write: return *)
-            | [] => if last_piece s1 then ew f (k - n) (set_ws s1 WPiece)   (* load_up_chunk *)
+            | [] => if last_piece s1 then ew f (k - n) (load_chunk (set_ws s1 WPiece))
                     else ew f (k - n) (set_ws s1 Idle)
             end
       | WPiece =>
